@@ -304,12 +304,17 @@ func diffKind(ref, got StoredRow) string {
 }
 
 func checkC05(c *vlib.Ctx) {
-	c.Rule("(A) histories of 3-8 single-measurement write requests (line protocol over the three endpoints = row-format WAL entries; MessagePack columnar = raw-envelope entries; MessagePack row) over 3 databases, timestamps now / before 1970 / 1970-01-01 / before 1970-04-27, columns named database, measurement, m, _database, _measurement; each history is run crash-free on a real arc process (reference) and again with a SIGKILL at an enumerated point: after the last acknowledgement, at the n-th wal.entry.before_write / after_write, at ingest.flush.before_write / after_write, and optionally a second kill during the next startup at wal.recover.after_replay / wal.recover.after_delete / main.recovery.done; then restart, flush, read the Parquet files with an independent reader. Oracle: every row of a request that was acknowledged AND whose WAL entry was observed in the file before the kill (hook trace) is stored, in the same database/measurement, with the same columns, values and timestamp as in the crash-free run. (B) concurrent family: 8 clients write 60 requests each to 8 DIFFERENT databases at the same time (MessagePack columnar, optionally mixed with line protocol), nothing is flushed, the process is killed once every acknowledged request's WAL entry was observed in the file, restarted, and every acknowledged row must be stored exactly once under the database it was written to. (C) one line-protocol request of 65535 / 65536 / 70001 rows of one measurement (a single row-format WAL entry on either side of the msgpack array16/array32 boundary), killed before any flush: every row must come back. non-trivial = distinct (history, crash plan) pairs, concurrent runs and large-entry runs")
+	c.Rule("(A) histories of 3-8 single-measurement write requests (line protocol over the three endpoints = row-format WAL entries; MessagePack columnar = raw-envelope entries; MessagePack row) over 3 databases, timestamps now / before 1970 / 1970-01-01 / before 1970-04-27, columns named database, measurement, m, _database, _measurement; each history is run crash-free on a real arc process (reference) and again with a SIGKILL at an enumerated point: after the last acknowledgement, at the n-th wal.entry.before_write / after_write, at ingest.flush.before_write / after_write, and optionally a second kill during the next startup at wal.recover.after_replay / wal.recover.after_delete / main.recovery.done; then restart, flush, read the Parquet files with an independent reader. Oracle: every row of a request that was acknowledged AND whose WAL entry was observed in the file before the kill (hook trace) is stored, in the same database/measurement, with the same columns, values and timestamp as in the crash-free run. (B) concurrent family: 8 clients write 60 requests each to 8 DIFFERENT databases at the same time (MessagePack columnar, optionally mixed with line protocol), nothing is flushed, the process is killed once every acknowledged request's WAL entry was observed in the file, restarted, and every acknowledged row must be stored exactly once under the database it was written to. (C) one line-protocol request of 65535 / 65536 / 70001 rows of one measurement (a single row-format WAL entry on either side of the msgpack array16/array32 boundary), killed before any flush: every row must come back. (D) a WAL write that fails part-way without a crash: the WAL file cannot grow beyond a byte limit placed inside entry k (RLIMIT_FSIZE in a child process running the real wal.Writer; 8 cut positions x k in {1,3}, thorough: every 13th byte of an entry), the writer rotates and retries, space returns, more entries are acknowledged, the writer is closed without purge and wal.Recovery runs: every acknowledged entry comes back exactly once. non-trivial = distinct (history, crash plan) pairs, concurrent runs, large-entry runs and short-write cases in which the failed write was observed")
 	c.Assume("crash = process death (SIGKILL); data written to the WAL file is considered to have reached it (no power-loss model)")
 	c.Assume("the k-th accepted request owns the k-th WAL entry: requests are sent one at a time and each carries one measurement")
 	c.Assume("duplicates of rows that had already been flushed before the kill are counted, not reported: the property requires the rows to be present and unchanged")
 	if _, err := os.Stat(arcBinary()); err != nil {
 		panic("arc binary missing: " + arcBinary())
+	}
+	if os.Getenv("VERIF_C05_MODE") == "short" { // debugging aid: only family (D)
+		runC05ShortWrites(c)
+		c.Floor(1)
+		return
 	}
 	rng := c.Rand("c05")
 	nHist := c.N(6, 60)
@@ -408,6 +413,7 @@ func checkC05(c *vlib.Ctx) {
 		}(n)
 	}
 	wg.Wait()
+	runC05ShortWrites(c)
 	c.Extra("crash_plans", len(cases))
 	c.Floor(10)
 }
